@@ -80,14 +80,18 @@ structure LoadState where
   fileCache : List Path
   sysPath : List Path
   known : List Path
+  /-- `_missing_dirs`: the known directories that did not exist when last looked at -/
+  missing : List Path := []
   deriving Repr
 
-/-- `pypyr.moduleloader.add_sys_path` run by one thread -/
+/-- `pypyr.moduleloader.add_sys_path` run by one thread: a directory whose "add or not" logic has
+    run is skipped — unless it did not exist then: such a directory is looked at again -/
 def addSysPath (fs : Fs) (st : LoadState) (d : Path) : LoadState :=
-  if d ∈ st.known then st
+  if d ∈ st.known ∧ d ∉ st.missing then st
   else if fs.dirExists d then
-    { st with sysPath := if d ∈ st.sysPath then st.sysPath else st.sysPath ++ [d], known := d :: st.known }
-  else { st with known := d :: st.known }
+    { st with sysPath := if d ∈ st.sysPath then st.sysPath else st.sysPath ++ [d], known := d :: st.known,
+              missing := st.missing.filter (· ≠ d) }
+  else { st with known := d :: st.known, missing := d :: st.missing }
 
 /-- `get_pipeline_definition`: find the path; on a `file_cache` miss `load_pipeline_from_file`
     parses the file and puts its directory on `sys.path`. -/
@@ -198,5 +202,101 @@ def runChain (fs : Fs) (custom : String → Option (Bool × Bool)) :
       else
         let (rest, err, st'') := runChain fs custom st' (some (infoOf ld)) rootLoader hs
         (ld :: rest, err, st'')
+
+/-! ### sequences of look-ups in one process: the warm pipeline cache above `get_pipeline_path`
+
+  `Pipeline.load_and_run_pipeline(context, parent)`:
+      loader_instance.get_pipeline(name=self.name, parent=parent)
+  `Loader.get_pipeline`: key `(str(parent), name) if parent else name`; on a miss the file loader's
+  `get_pipeline_definition(name, parent)` runs (look-up in the file system as it is now, then
+  `file_cache`). A hit returns the definition made from the file found THEN.
+
+  `str` of an absolute, normalised path determines the path, so the model keeps the component list
+  where the code keeps the string; the name part of the key is the raw string the caller wrote,
+  `parse` (total on the domain; the driver rejects everything else first) splits it into a `Name`.
+  Which `Pipeline` object issues a look-up is carried along (`obj`) and — as in the code — plays
+  no part in it. -/
+
+/-- `(str(parent), name)` / bare `name` for a falsy parent -/
+abbrev SKey := Option Path × String
+
+structure Req where
+  /-- which `pypyr.pipeline.Pipeline` object is run (objects may be run any number of times) -/
+  obj : Nat
+  nameStr : String
+  parent : Option Path
+  deriving Repr
+
+structure Sess where
+  /-- the file loader's `Loader._pipeline_cache`: key ↦ the file its definition was parsed from -/
+  pipes : List (SKey × Path)
+  load : LoadState
+  deriving Repr
+
+def Sess.init (sysPath : List Path) : Sess :=
+  { pipes := [], load := { fileCache := [], sysPath := sysPath, known := [] } }
+
+def Sess.lookup (s : Sess) (k : SKey) : Option Path := (s.pipes.find? (fun e => e.1 == k)).map (·.2)
+
+/-- one look-up through `Loader.get_pipeline`; `noCache` = `config.no_cache` at that moment -/
+def request (parse : String → Name) (fs : Fs) (noCache : Bool) (s : Sess) (r : Req) : Except String Path × Sess :=
+  if noCache then
+    match getPipelinePath fs (parse r.nameStr) r.parent with
+    | .error e => (.error e, s)
+    | .ok p => (.ok p, { s with load := addSysPath fs s.load (dirOf p) })
+  else match s.lookup (r.parent, r.nameStr) with
+    | some p => (.ok p, s)
+    | none =>
+      match getPipelineDefinition fs s.load (parse r.nameStr) r.parent with
+      | (.ok p, ld) => (.ok p, { pipes := ((r.parent, r.nameStr), p) :: s.pipes, load := ld })
+      | (.error e, ld) => (.error e, { s with load := ld })
+
+/-- `pypyr.cache.admin.clear_all()` (as far as resolution goes: the loaders with their pipeline
+    caches and `file_cache`; `sys.path` and `_known_dirs` are not caches and stay) -/
+def Sess.clear (s : Sess) : Sess := { pipes := [], load := { s.load with fileCache := [] } }
+
+inductive SOp where
+  | req (r : Req)
+  /-- the file system changes (files appear / disappear) -/
+  | fs (fs : Fs)
+  | clear
+  | noCache (b : Bool)
+  /-- a pipeline is constructed with `py_dir=d`: `add_sys_path(d)` runs before its look-up -/
+  | pyDir (d : Path)
+
+def Sess.pyDir (fs : Fs) (s : Sess) (d : Path) : Sess := { s with load := addSysPath fs s.load d }
+
+/-- a session: for every look-up its result, "was every cache layer cleared since the file system
+    last changed (or is caching off)", and what a look-up in a cold process yields at that moment -/
+def runSess (parse : String → Name) : Fs → Bool → Bool → Sess → List SOp →
+    List (Except String Path × Bool × Except String Path)
+  | _, _, _, _, [] => []
+  | fs, nc, dirty, s, .req r :: ops =>
+    ((request parse fs nc s r).1, (!dirty || nc), getPipelinePath fs (parse r.nameStr) r.parent) ::
+      runSess parse fs nc dirty (request parse fs nc s r).2 ops
+  | _, nc, _, s, .fs fs' :: ops => runSess parse fs' nc true s ops
+  | fs, nc, _, s, .clear :: ops => runSess parse fs nc false s.clear ops
+  | fs, _, dirty, s, .noCache b :: ops => runSess parse fs b dirty s ops
+  | fs, nc, dirty, s, .pyDir d :: ops => runSess parse fs nc dirty (s.pyDir fs d) ops
+
+/-- a session, observing after every look-up its result and `sys.path` as it is then -/
+def runSessPath (parse : String → Name) : Fs → Bool → Sess → List SOp → List (Except String Path × List Path)
+  | _, _, _, [] => []
+  | fs, nc, s, .req r :: ops =>
+    ((request parse fs nc s r).1, (request parse fs nc s r).2.load.sysPath) ::
+      runSessPath parse fs nc (request parse fs nc s r).2 ops
+  | _, nc, s, .fs fs' :: ops => runSessPath parse fs' nc s ops
+  | fs, nc, s, .clear :: ops => runSessPath parse fs nc s.clear ops
+  | fs, _, s, .noCache b :: ops => runSessPath parse fs b s ops
+  | fs, nc, s, .pyDir d :: ops => runSessPath parse fs nc (s.pyDir fs d) ops
+
+/-- NOT pypyr: the key `os.path.join(str(parent), name)` — only the FIRST candidate of the look-up.
+    Different requests with the same first candidate but different fall-through share it
+    (`Props/C19.lean`, `joined_key_collides`). -/
+def joinedKey (parse : String → Name) (r : Req) : Path :=
+  match parse r.nameStr, r.parent with
+  | .abs parts, _ => parts
+  | .rel parts, some p => p ++ parts
+  | .rel parts, none => parts
 
 end Pypyr.Resolve
